@@ -52,28 +52,49 @@ type msgOp struct {
 	Arg  string `json:"arg"`
 }
 
+// sizedString: a value of a drawn length (every length up to 300, and lengths around 4 KiB and
+// 64 KiB), so that any internal line or chunk buffer of the encoder is met at its exact size.
+func sizedString(ch *Chooser) string {
+	n := 0
+	switch ch.Weighted([]int{8, 1, 1}, "value size class") {
+	case 0:
+		n = ch.Range(0, 300, "value length")
+	case 1:
+		n = ch.Range(4080, 4110, "value length around 4 KiB")
+	case 2:
+		n = ch.Range(65520, 65550, "value length around 64 KiB")
+	}
+	return strings.Repeat("k", n)
+}
+
 // genMessage builds a message from a generated sequence of public API calls.
 func genMessage(ch *Chooser) (*sse.Message, []msgOp) {
 	m := &sse.Message{}
 	var ops []msgOp
+	pick := func(pool []string, label string) string {
+		if ch.Chance(1, 5, "sized "+label) {
+			return sizedString(ch)
+		}
+		return pool[ch.Intn(len(pool), label)]
+	}
 	for i := 0; i < 8 && ch.Chance(3, 4, "more message ops"); i++ {
 		switch ch.Weighted([]int{6, 2, 2, 2, 2}, "message op") {
 		case 0:
-			s := encStrings[ch.Intn(len(encStrings), "data")]
+			s := pick(encStrings, "data")
 			m.AppendData(s)
 			ops = append(ops, msgOp{"AppendData", s})
 		case 1:
-			s := encStrings[ch.Intn(len(encStrings), "comment")]
+			s := pick(encStrings, "comment")
 			m.AppendComment(s)
 			ops = append(ops, msgOp{"AppendComment", s})
 		case 2:
 			ids := []string{"1", "", "a b", "é", ":", " x", "id: y", "007"}
-			s := ids[ch.Intn(len(ids), "id")]
+			s := pick(ids, "id")
 			m.ID = sse.ID(s)
 			ops = append(ops, msgOp{"ID", s})
 		case 3:
 			types := []string{"t", "", "message", " sp", "a:b", "data"}
-			s := types[ch.Intn(len(types), "type")]
+			s := pick(types, "type")
 			m.Type = sse.Type(s)
 			ops = append(ops, msgOp{"Type", s})
 		case 4:
@@ -91,7 +112,14 @@ func runEncodeWorld(rc *RunCtx) (out *Outcome) {
 	out = o // also when a panic inside go-sse is recovered below
 	ch := rc.Ch
 	m, ops := genMessage(ch)
-	desc := fmt.Sprintf("%+v", ops)
+	shown := make([]msgOp, len(ops))
+	for i, op := range ops {
+		shown[i] = op
+		if len(op.Arg) > 40 && strings.Trim(op.Arg, "k") == "" {
+			shown[i].Arg = fmt.Sprintf("k x %d", len(op.Arg))
+		}
+	}
+	desc := fmt.Sprintf("%+v", shown)
 	if rc.KeepLog {
 		o.Log = []string{"message built by " + desc}
 	}
@@ -103,7 +131,7 @@ func runEncodeWorld(rc *RunCtx) (out *Outcome) {
 		h.str(desc)
 		o.Key = uint64(h)
 		o.LogHash = uint64(h)
-		o.Sample = map[string]any{"ops": ops}
+		o.Sample = map[string]any{"ops": shown}
 	}()
 
 	// fault-free encoding with its Write boundaries
